@@ -14,7 +14,11 @@
 //                            VERIF-REJECT line per transition that the specification does not allow) and
 //                            turns those lines into classified disagreements.  bin/check itself only
 //                            knows "trace rejected at line n"; this stage exists to give every defect its
-//                            own signature and to keep validating after a known one.
+//                            own signature and to keep validating after a known one.  Under
+//                            `bin/check C30 --replay <file>` (no TLC output, the input is the history of a
+//                            reported disagreement) it re-executes that history 20 times on the real peer
+//                            set, runs TLC on the new recordings itself and reports whether the last step
+//                            is rejected again.
 
 package peerset
 
